@@ -24,7 +24,8 @@ MANIFEST = dict(
          'shares a mutable bit container or reference list with a cell, that repeated hashing/ordering/serialising gives identical terms '
          'and leaves inputs untouched, that no function keeps state in a mutable default / module / class object, and that no TL-B '
          'serialiser mutates a caller-held container.'
-         ' A module-level table is accepted as a memo only when it is used as a table and keyed by every input of the computation it caches (unmodified parameters, no other parameter read); module-level instances of package classes that a function hands out by `return` are shared state.',
+         ' A module-level table is accepted as a memo only when it is used as a table and keyed by every input of the computation it caches (unmodified parameters, no other parameter read); module-level instances of package classes that a function hands out by `return` are shared state.'
+         ' A function that rebinds a class attribute (a counter kept on the class) is process-wide state unless the step is undone in a finally directly around what follows, or it is a once-only table under a guard on the attribute whose value mentions no parameter.',
     note='trusted: interpreter heap model (every list/bitarray is an identity-bearing mutable object). Not decided: state kept inside third-party libraries.',
     design_ref='DESIGN.md section 4 C08')
 
